@@ -72,7 +72,7 @@ func init() {
 	run.Props["C19"] = &run.PropSpec{ID: "C19", Level: "fault_enumeration",
 		Rule:     "one evaluation = one (replica, block) comparison of AppHash + every tx result (code, data, gas, log, events) + block events as a multiset against the primary; replicas: un-probed plain, restarted after every height, crashed between FinalizeBlock and Commit at every height; distinct = (replica, height, AppHash)",
 		Monitors: func() []mon.Monitor { return []mon.Monitor{mon.NewC19()} },
-		Plan:     plan([]run.PlanItem{pi("replicas", 8)}, []run.PlanItem{pi("replicas", 32)}),
+		Plan:     plan([]run.PlanItem{pi("replicas", 8)}, []run.PlanItem{pi("replicas", 32), pi("race", 3)}),
 		Assume:   []string{boundsAssume, "different process-level randomisation is obtained from separate app objects in one process (Go randomises every map range independently)"}}
 	run.Props["C14"] = &run.PropSpec{ID: "C14", Level: "exploration",
 		Rule:     "one evaluation = one successful vest / claim / cancel / vest-now transaction of an observed account checked against the monitor's own linear-schedule reference (entries and balances snapshotted by the pre-message probe, compared in the post-tx probe), or one conservation equation; distinct = (op, account, entries before -> after) never seen before",
